@@ -50,15 +50,14 @@ Proof.
   - destruct IH as [p Hp]; [lia|]. exists (p + 1). unfold hget in *. cbn [nthN].
     replace (p + 1 =? 0) with false by lia. replace (N.pred (p + 1)) with p by lia. exact Hp.
 Qed.
-Lemma cnt_two : forall f hs p q, p <> q -> f (hget hs p) = true -> f (hget hs q) = true -> 2 <= cnt f hs.
+Lemma cnt_pos_of_holder : forall f hs k, f HNone = false -> f (hget hs k) = true -> 0 < cnt f hs.
 Proof.
-  intros f hs; induction hs as [|y r IH]; intros p q Hpq Hp Hq.
-  - unfold hget in Hp. cbn in Hp. destruct f; discriminate || (cbn in Hp; idtac). 
-    unfold hget in Hp; cbn in Hp. assert (f HNone = true) by exact Hp.
-    (* no process exists in an empty population: the hypothesis talks about the default; excluded by callers *)
-    unfold hget in Hq. cbn in Hq. cbn [cnt].
-    (* cannot conclude in general; strengthen statement below *)
-Abort.
+  intros f hs; induction hs as [|z r IH]; intros k Hn Hk.
+  - unfold hget in Hk; cbn in Hk; congruence.
+  - cbn [cnt]. unfold hget in Hk; cbn [nthN] in Hk. destruct (k =? 0).
+    + rewrite Hk; lia.
+    + specialize (IH (N.pred k) Hn Hk). lia.
+Qed.
 
 Lemma cnt_two : forall f hs p q, f HNone = false -> p <> q ->
   f (hget hs p) = true -> f (hget hs q) = true -> 2 <= cnt f hs.
@@ -67,22 +66,10 @@ Proof.
   - unfold hget in Hp. cbn in Hp. congruence.
   - cbn [cnt]. unfold hget in Hp, Hq. cbn [nthN] in Hp, Hq.
     destruct (p =? 0) eqn:Ep; destruct (q =? 0) eqn:Eq; try lia.
-    + rewrite Hp. assert (0 < cnt f r).
-      { clear IH. assert (exists k, f (hget r k) = true) by (exists (N.pred q); exact Hq).
-        destruct H as [k Hk]. revert k Hk. induction r as [|z r' IHr]; intros k Hk.
-        - unfold hget in Hk; cbn in Hk; congruence.
-        - cbn [cnt]. unfold hget in Hk; cbn [nthN] in Hk. destruct (k =? 0); [rewrite Hk; lia|].
-          specialize (IHr (N.pred k) Hk). lia. }
-      lia.
-    + rewrite Hq. assert (0 < cnt f r).
-      { clear IH. assert (exists k, f (hget r k) = true) by (exists (N.pred p); exact Hp).
-        destruct H as [k Hk]. revert k Hk. induction r as [|z r' IHr]; intros k Hk.
-        - unfold hget in Hk; cbn in Hk; congruence.
-        - cbn [cnt]. unfold hget in Hk; cbn [nthN] in Hk. destruct (k =? 0); [rewrite Hk; lia|].
-          specialize (IHr (N.pred k) Hk). lia. }
-      lia.
-    + specialize (IH (N.pred p) (N.pred q) Hn). assert (N.pred p <> N.pred q) by lia.
-      specialize (IH H Hp Hq). lia.
+    + rewrite Hp. pose proof (cnt_pos_of_holder f r (N.pred q) Hn Hq). lia.
+    + rewrite Hq. pose proof (cnt_pos_of_holder f r (N.pred p) Hn Hp). lia.
+    + assert (N.pred p <> N.pred q) by lia.
+      pose proof (IH (N.pred p) (N.pred q) Hn H Hp Hq). lia.
 Qed.
 
 Record pinv (s : pop) : Prop := mkPinv {
